@@ -197,7 +197,48 @@ def _node(target, path):
     return target if path == "/" else target[path]
 
 
+def _kept_node(box: Box, path):
+    """Metadata operations go through a node wrapper the caller KEEPS (obtained at the first metadata operation on that path, its .meta looked at
+    once): `node.meta` builds the interface from the node as it is at each access. h5py keeps a held handle valid over a move (its name
+    follows), so on the plain-HDF5 driver the kept wrappers follow a moved node; every other operation drops them (IH5 nodes are path values)."""
+    kept = box.__dict__.setdefault("kept", {})
+    if kept.get("__c__") is not box.c:  # reopened
+        kept.clear()
+        kept["__c__"] = box.c
+    w = kept.get(path)
+    if w is None:
+        w = kept[path] = _node(box.c, path)
+        len(w.meta)
+    return w
+
+
+def _after_cop(box: Box, op):
+    kept = box.__dict__.get("kept")
+    if not kept or op[0] in ("meta", "delmeta"):
+        return
+    if op[0] == "move" and box.kind == "h5":
+        src, dst = op[1].strip("/"), op[2].strip("/")
+        moved = {"__c__": kept.get("__c__")}
+        for p, w in kept.items():
+            q = p.strip("/") if p != "__c__" else None
+            if q is not None and q == src:  # only the moved node itself: h5py does not update the name of held handles of its descendants
+                moved[dst] = w
+        kept.clear()
+        kept.update(moved)
+    else:
+        kept.clear()
+
+
 def _do_cop(box: Box, op):
+    try:
+        _do_cop_(box, op)
+    except BaseException:
+        box.__dict__.get("kept", {}).clear()
+        raise
+    _after_cop(box, op)
+
+
+def _do_cop_(box: Box, op):
     c = box.c
     k = op[0]
     if k == "set":
@@ -219,9 +260,9 @@ def _do_cop(box: Box, op):
     elif k == "move":
         c.move(op[1], op[2])
     elif k == "meta":
-        _node(c, op[1]).meta[schema_of(op[2])] = build_obj(op[2])
+        _kept_node(box, op[1]).meta[schema_of(op[2])] = build_obj(op[2])
     elif k == "delmeta":
-        del _node(c, op[1]).meta[op[2]]
+        del _kept_node(box, op[1]).meta[op[2]]
     elif k == "reopen":
         box.reopen()
     elif k == "commit":
